@@ -60,14 +60,18 @@ func c17Coverage(c *kit.Ctx, r *kit.Rule, dec *c17Decoder, dm *c17DecModel) {
 	}
 	// the shortest input the decoder hands to the checksum
 	minLen := int64(0)
-	if se := c17SliceOf(dec.f.Info(), dec.computed.Args[0], dec.d); se != nil && dm != nil && dm.lf != nil {
+	if se := dec.computedSlice; se != nil && dm != nil && dm.lf != nil {
 		first := true
-		for _, st := range dm.lf.Sites {
+		flow := dm.lf
+		if dec.viaHelper() && dm.hlf != nil {
+			flow = dm.hlf
+		}
+		for _, st := range flow.Sites {
 			if st.Expr != ast.Expr(se) {
 				continue
 			}
 			for _, b := range st.Bounds {
-				if set, _, _, _, ok := dm.lf.ResultLen(se, b.State); ok {
+				if set, _, _, _, ok := flow.ResultLen(se, b.State); ok {
 					var lo int64
 					if _, err := fmt.Sscanf(set, "%d:", &lo); err == nil && (first || lo < minLen) {
 						minLen, first = lo, false
